@@ -1,6 +1,7 @@
 package io
 
 import (
+	"errors"
 	"io"
 	"os"
 
@@ -13,6 +14,8 @@ type FileStream struct {
 	path      string
 	hasRead   bool
 }
+
+var errInvalidUTF8 = errors.New("invalid UTF-8 encoding")
 
 const (
 	defaultReadBlock = 4096
@@ -47,6 +50,10 @@ func (f *FileStream) ReadAll() ([]rune, error) {
 		}
 
 		if len(res) == 0 {
+			// bytes that could not be decoded are left over: the file is not valid UTF-8
+			if len(f.encBuffer) > 0 {
+				return []rune{}, zerr.ReadFileError(errInvalidUTF8, f.path)
+			}
 			break
 		}
 		result = append(result, res...)
